@@ -613,7 +613,7 @@ def cases(tier, rng):
     for b in pick:
         yield from lookup_cases('tz.at', 'tz.atlocal', [b], parse_system(b), rng)
     # 3. writer output, mutations of it, lookups on it
-    nz = 700 if quick else 20000
+    nz = 1500 if quick else 20000
     for k in range(nz):
         version = rng.choice([1, 2, 2, 3, 3])
         z = rand_zone(rng, version)
@@ -665,13 +665,13 @@ def cases(tier, rng):
                 ex = [t + d for t, _ in lp for d in (-2, -1, 0, 1, 2) if I64_MIN <= t + d <= I64_MAX] + [I64_MAX - c for _, c in lp] + [I64_MIN - c for _, c in lp if c < 0]
                 yield from lookup_cases('tz.at', 'tz.atlocal', [data], [(t, 0, 0) for t, _ in tt], rng, extra=[e for e in ex if I64_MIN <= e <= I64_MAX])
     # 6. random bytes
-    for _ in range(3000 if quick else 200000):
+    for _ in range(6000 if quick else 200000):
         yield case_line('tz.parse', rand_bytes(rng))
     # 7. TZ strings
-    for s, ext in tz_strings(rng, 12000 if quick else 400000):
+    for s, ext in tz_strings(rng, 20000 if quick else 400000):
         yield case_line('tz.rule', s, ext)
     # 8. rule lookups
-    for k in range(900 if quick else 30000):
+    for k in range(1500 if quick else 30000):
         ext = rng.randint(0, 1)
         r = rand_rule(rng, bool(ext), tame=rng.random() < 0.5)
         s = fmt_rule(r).encode('latin-1')
